@@ -9,9 +9,11 @@ import (
 	"fmt"
 	"io/fs"
 	"os"
+	"path"
 	"path/filepath"
 	"runtime"
 	"sort"
+	"strconv"
 	"strings"
 	"syscall"
 
@@ -373,6 +375,10 @@ func equalLines(a, b []string) bool {
 func (w *worker) args(f *family, c callT, a user) opArgs {
 	op := opArgs{A: w.abs(f.Leaf)}
 
+	if c.Up {
+		op.A = w.abs(path.Dir(f.Leaf))
+	}
+
 	if c.Sub != "" {
 		op.A += "/" + c.Sub
 	}
@@ -634,9 +640,11 @@ func (w *worker) eval(b *block, nodes []node, c callT) (out evalOut, err error) 
 
 			// RemoveAll "removes everything it can but returns the first error it
 			// encounters": when both sides refuse, how much each removed before
-			// the refusal is not a permission decision (os.RemoveAll cannot even
-			// list a directory it may not read, MemFS removes the children the
-			// caller may remove) and is not compared.
+			// the refusal differs legitimately (os.RemoveAll cannot even list a
+			// directory it may not read, MemFS removes the children the caller
+			// may remove). What is a permission decision is judged on its own
+			// below (removedWithoutPermission): an entry gone on the avfs side
+			// must have been removable by the caller.
 			if c.Op == "RemoveAll" && rk.Kind != "ok" && rv.Kind != "ok" {
 				out.maskedRemoveAll = true
 
@@ -645,9 +653,74 @@ func (w *worker) eval(b *block, nodes []node, c callT) (out evalOut, err error) 
 
 			out.viols = append(out.viols, viol{mk("tree", d), diffText})
 		}
+
+		if c.Op == "RemoveAll" && rk.Kind != "ok" && rv.Kind != "ok" {
+			for _, d := range removedWithoutPermission(vd, w.pv, u) {
+				out.viols = append(out.viols, viol{mk("tree", d), diffText})
+			}
+		}
 	}
 
 	return out, nil
+}
+
+// removedWithoutPermission judges what a refused RemoveAll removed on the avfs
+// side: an entry present before and gone afterwards must have been removable by
+// the caller, i.e. the caller has write and search permission on the directory
+// that held it (class selection as in the property; the sticky bit is not
+// consulted: MemFS does not implement it, KF-C03-014). Returns one
+// "removed-without-permission:<type>" per entry type removed unduly.
+func removedWithoutPermission(after, before []string, u user) []string {
+	am, bm := parseDump(after), parseDump(before)
+	set := map[string]bool{}
+
+	for p, b := range bm {
+		if _, still := am[p]; still || strings.HasPrefix(b.typ, "!") || p == "." {
+			continue
+		}
+
+		dir := "."
+		if i := strings.LastIndexByte(p, '/'); i >= 0 {
+			dir = p[:i]
+		}
+
+		d, ok := bm[dir]
+		if !ok || u.Uid == 0 {
+			continue
+		}
+
+		perm, err := strconv.ParseUint(d.perm, 8, 32)
+		if err != nil {
+			continue
+		}
+
+		var uid, gid int
+
+		if _, err := fmt.Sscanf(d.owner, "%d:%d", &uid, &gid); err != nil {
+			continue
+		}
+
+		bits := perm & 7
+		switch classOf(u, uid, gid) {
+		case "owner":
+			bits = perm >> 6 & 7
+		case "group":
+			bits = perm >> 3 & 7
+		}
+
+		if bits&3 != 3 { // write and search
+			set["removed-without-permission:"+b.typ] = true
+		}
+	}
+
+	out := make([]string, 0, len(set))
+	for k := range set {
+		out = append(out, k)
+	}
+
+	sort.Strings(out)
+
+	return out
 }
 
 // formulaDiff checks every object present in after but not in before against
